@@ -673,11 +673,13 @@ func (obj *SparseFloat64Matrix) JointIterator(b ConstMatrix) MatrixJointIterator
 }
 func (obj *SparseFloat64Matrix) ITERATOR() *SparseFloat64MatrixIterator {
   r := SparseFloat64MatrixIterator{*obj.values.ITERATOR(), obj}
+  r.skip()
   return &r
 }
 func (obj *SparseFloat64Matrix) ITERATOR_FROM(i, j int) *SparseFloat64MatrixIterator {
   k := obj.index(i, j)
   r := SparseFloat64MatrixIterator{*obj.values.ITERATOR_FROM(k), obj}
+  r.skip()
   return &r
 }
 func (obj *SparseFloat64Matrix) JOINT_ITERATOR(b ConstMatrix) *SparseFloat64MatrixJointIterator {
@@ -698,6 +700,21 @@ type SparseFloat64MatrixIterator struct {
 }
 func (obj *SparseFloat64MatrixIterator) Index() (int, int) {
   return obj.m.ij(obj.SparseFloat64VectorIterator.Index())
+}
+func (obj *SparseFloat64MatrixIterator) Next() {
+  obj.SparseFloat64VectorIterator.Next()
+  obj.skip()
+}
+// skip elements of the underlying storage that are not
+// part of this matrix (i.e. if the matrix is a slice)
+func (obj *SparseFloat64MatrixIterator) skip() {
+  for obj.Ok() {
+    i, j := obj.Index()
+    if i >= 0 && i < obj.m.rows && j >= 0 && j < obj.m.cols {
+      break
+    }
+    obj.SparseFloat64VectorIterator.Next()
+  }
 }
 func (obj *SparseFloat64MatrixIterator) Clone() *SparseFloat64MatrixIterator {
   return &SparseFloat64MatrixIterator{*obj.SparseFloat64VectorIterator.Clone(), obj.m}
